@@ -50,6 +50,25 @@ def make_groups(rng):
     return SegmentationClassGroups(groups), spec
 
 
+def make_groups_wide(rng):
+    """a scheme defined over a label space wider than the arrays' dtype: some groups also list labels >= 256 whose low byte
+    equals a label of ANOTHER group (they select nothing in a uint8 array; they must not alias by wrap-around)"""
+    from panoptica.utils.segmentation_class import SegmentationClassGroups
+    from panoptica.utils.label_group import LabelGroup, LabelMergeGroup
+    _, spec = make_groups(rng)
+    names = list(spec)
+    if len(names) >= 2:
+        for _ in range(rng.randint(1, 2)):
+            a, b = rng.sample(names, 2)
+            alias = 256 * rng.randint(1, 3) + rng.choice(spec[b][1])
+            if spec[a][0] != "single":
+                spec[a] = (spec[a][0], sorted(set(spec[a][1] + [alias])))
+    groups = {}
+    for n, (kind, ls) in spec.items():
+        groups[n] = LabelGroup(ls) if kind == "plain" else LabelMergeGroup(ls) if kind == "merge" else LabelGroup(ls, single_instance=True)
+    return SegmentationClassGroups(groups), spec
+
+
 def restrict(a, ls, binar):
     out = np.where(np.isin(a, ls), a, 0).astype(a.dtype)
     if binar:
@@ -88,8 +107,16 @@ def run(ctx):
         flat = pred.reshape(-1)
         for _ in range(rng.randint(0, 5)):
             flat[rng.randrange(flat.size)] = rng.choice([0, 1, 2, 3, 4, 5, 6])
-        groups, spec = make_groups(rng)
+        groups, spec = make_groups(rng) if (dt != "uint8" or rng.random() < 0.7) else make_groups_wide(rng)
         cfg = gen_cfg(rng, it)
+        if rng.random() < 0.35:
+            # a decision threshold that imperfect instances fail (the filter must act in every group but a single-instance one,
+            # whatever kind of group was evaluated before it)
+            if "IOU" not in cfg["imetrics"]:
+                cfg["imetrics"] = cfg["imetrics"] + ["IOU"]
+            cfg["dmetric"], cfg["dthr"] = "IOU", rng.choice([0.6, 0.8, 1.0])
+            if it != "matched":
+                cfg["matcher"], cfg["m2o"], cfg["mmetric"], cfg["mthr"] = "naive", False, "IOU", rng.choice([0.1, 0.3])
         cfg["groups"] = groups
         cfgj = {k: v for k, v in cfg.items() if k != "groups"}
         out = impl.evaluate(impl.make_evaluator(cfg), pred.copy(), ref.copy())
@@ -166,6 +193,48 @@ def run(ctx):
                 ctx.violation("input with a label (9) that belongs to no group was evaluated instead of rejected", {**case, "bad_array": which, "bad": bad_p})
 
 
+def groups_from_spec(spec):
+    from panoptica.utils.segmentation_class import SegmentationClassGroups
+    from panoptica.utils.label_group import LabelGroup, LabelMergeGroup
+    groups = {}
+    for n, (kind, ls) in spec.items():
+        groups[n] = LabelGroup(ls) if kind == "plain" else LabelMergeGroup(ls) if kind == "merge" else LabelGroup(ls, single_instance=True)
+    return SegmentationClassGroups(groups)
+
+
 def replay(path):
-    print("replay: re-run ./check C12 with the same VERIF_SEED; case:", open(path).read()[:600])
-    return 1
+    common.serial_pool()
+    d = json.loads(open(path).read())
+    if "groups" not in d or "cfg" not in d:
+        print("case:", json.dumps(d)[:600])
+        return 1
+    spec = {n: (k, ls) for n, (k, ls) in d["groups"].items()}
+    pred, ref = common.arr_from_json(d["pred"]), common.arr_from_json(d["ref"])
+    cfgj = d["cfg"]
+    it = cfgj["input"]
+    out = impl.evaluate(impl.make_evaluator({**cfgj, "groups": groups_from_spec(spec)}), pred.copy(), ref.copy())
+    if isinstance(out, tuple):
+        print("grouped evaluation raised:", out)
+        return 1
+    rc = 0
+    for name, (kind, ls) in spec.items():
+        cfg_u = dict(cfgj)
+        p_g, r_g = restrict(pred, ls, kind == "merge"), restrict(ref, ls, kind == "merge")
+        if kind == "single" and it != "matched":
+            cfg_u["input"] = "matched"
+            for k in ("matcher", "m2o", "mmetric", "mthr", "backend"):
+                cfg_u.pop(k, None)
+            if cfg_u.get("dmetric") is not None:
+                cfg_u["dthr"] = 0.0 if cfg_u["dmetric"] != "ASSD" else float("inf")
+        o_u = impl.evaluate(impl.make_evaluator(cfg_u), p_g, r_g)
+        diff = "ungrouped evaluation raised " + str(o_u[1:]) if isinstance(o_u, tuple) else meta.same_outcome({"ungrouped": out[name]}, o_u)
+        print(f"group {name} ({kind} {ls}): " + ("same as the evaluation of the restricted arrays" if not diff else "DIFFERS: " + diff))
+        rc |= bool(diff)
+    if "pred2" in d:
+        p2, r2 = common.arr_from_json(d["pred2"]), common.arr_from_json(d["ref2"])
+        out2 = impl.evaluate(impl.make_evaluator({**cfgj, "groups": groups_from_spec(spec)}), p2, r2)
+        name = d["group"]
+        diff = meta.same_outcome({"ungrouped": out[name]}, {"ungrouped": out2[name]}) if not isinstance(out2, tuple) else None
+        print(f"non-interference for group {name}: " + ("unchanged" if not diff else "CHANGED: " + diff))
+        rc |= bool(diff)
+    return rc
